@@ -55,7 +55,13 @@ RANDOM_UTILS = {"RandomSampling"}
 # the optimiser's tolerance
 TOL = {"EpistemicUS[pwc]": dict(rtol=1e-4, atol=1e-6),
        "EpistemicUS[pwc,precompute]": dict(rtol=1e-4, atol=1e-6),
-       "EpistemicUS[lr]": dict(rtol=1e-3, atol=1e-5)}
+       "EpistemicUS[lr]": dict(rtol=1e-3, atol=1e-5),
+       # Euclidean distances via the dot-product expansion carry an
+       # absolute rounding error of about sqrt(eps) * |x| (1e-8 .. 1e-7)
+       "GreedySamplingX": dict(rtol=1e-6, atol=1e-6),
+       "GreedySamplingTarget[GSi]": dict(rtol=1e-6, atol=1e-6),
+       "GreedySamplingTarget[GSy]": dict(rtol=1e-6, atol=1e-6),
+       "CoreSet": dict(rtol=1e-6, atol=1e-6)}
 # nearest-neighbour based scores break exact distance ties by row order
 KNN_TIE_SENSITIVE = {"ContrastiveAL"}
 
